@@ -185,6 +185,34 @@ def frame_work(ctx, acc):
                                             expected={"child_errors": base, "membership": verdict}, observed=got, rule=ctx.rule))
     p.content = base_content
     p.attributes = dict(base_attrs)
+    # the same verdict when the parent is reached by a whole-tree walk, as a later sibling of an additionalMetadata block
+    # (documents are validated that way; single-node validation is the route the sweeps take)
+    if not ctx.direct:
+        from metapype.eml import validate as _validate
+        for seq in words:
+            p.children = [ctx.child[a] for a in seq]
+            try:
+                base = child_codes()
+            except Exception:  # noqa
+                continue
+            wrapper = Node("zzWrapper", id="W")
+            am = Node("additionalMetadata", id="AM")
+            md = Node("metadata", id="MD")
+            md.add_child(Node("zzAnything", id="ZA"))
+            am.add_child(md)
+            wrapper.children = [am, p]
+            n += 1
+            case = {"rule": ctx.rule, "seq": list(seq), "route": "validate.tree, after an additionalMetadata sibling"}
+            try:
+                errs = []
+                _validate.tree(wrapper, errs)
+                got = [e[0].name for e in errs if isinstance(e, tuple) and len(e) > 2 and e[2] is p and getattr(e[0], "name", None) in CHILD_CODES]
+            except Exception as e:  # noqa
+                acc.add_problem(problem("collecting_raised", case, expected="no exception", observed=repr(e), rule=ctx.rule,
+                                        mode="collecting", exc=type(e).__name__))
+                continue
+            if got != base:
+                acc.add_problem(problem("child_verdict_depends_on_route", case, expected=base, observed=got, rule=ctx.rule))
     # validate - rearrange in place - validate: the verdict is that of the sequence as it is now.  The rearrangements keep
     # the number of children: a hard shift of one child, a child renamed where it stands, two list items exchanged.
     from metapype.model.node import Shift
@@ -227,8 +255,56 @@ def frame_work(ctx, acc):
     acc.count("frame_cases", n)
 
 
+def metadata_work(acc):
+    """the one rule outside the table's grammar: a metadata element holds at most one child, of any name"""
+    from metapype.eml import validate as _validate
+    n = 0
+    for kids in ([], ["zzAny"], ["title"], ["zzAny", "zzOther"], ["title", "title"], ["zzA", "title", "zzB"]):
+        for prefilled in (False, True):
+            core.reset_store()
+            md = Node("metadata", id="MD")
+            for i, k in enumerate(kids):
+                md.add_child(Node(k, id=f"k{i}"))
+            case = {"rule": "metadataRule", "metadata_children": kids, "prefilled": prefilled}
+            want_ok = len(kids) <= 1
+            for route, fn in (("validate.node", lambda e_: _validate.node(md, e_)), ("validate.tree", lambda e_: _validate.tree(md, e_)),
+                              ("Rule.validate_rule", lambda e_: ruleinfo.mrule.Rule("metadataRule").validate_rule(md, e_))):
+                n += 1
+                other = Node("zzOtherNode", id="other")
+                errs = [(ValidationError.CHILD_NOT_ALLOWED, "earlier entry", other, "x")] if prefilled else []
+                k0 = len(errs)
+                try:
+                    fn(errs)
+                    new = [getattr(e[0], "name", repr(e[0])) for e in errs[k0:]]
+                    if (not new) != want_ok or any(c_ not in CHILD_CODES for c_ in new):
+                        acc.add_problem(problem("must_accept_rejected" if want_ok else "must_reject_accepted", dict(case, route=route),
+                                                expected="no error" if want_ok else "a maximum-occurrence error", observed=new,
+                                                rule="metadataRule", mode="collecting"))
+                except Exception as e:  # noqa
+                    acc.add_problem(problem("collecting_raised", dict(case, route=route), expected="no exception", observed=repr(e),
+                                            rule="metadataRule", mode="collecting", exc=type(e).__name__))
+                try:
+                    fn(None)
+                    ff = None
+                except MetapypeRuleError as e:
+                    ff = e
+                except Exception as e:  # noqa
+                    ff = e
+                    acc.add_problem(problem("foreign_exception", dict(case, route=route), expected="None or a rule error", observed=repr(e),
+                                            rule="metadataRule", mode="fail-fast", exc=type(e).__name__))
+                if (ff is None) != want_ok:
+                    acc.add_problem(problem("must_accept_rejected" if want_ok else "must_reject_accepted", dict(case, route=route),
+                                            expected="accepted" if want_ok else "a rule error", observed=repr(ff), rule="metadataRule",
+                                            mode="fail-fast"))
+    acc.count("metadata_cases", n)
+
+
 def work(item):
     rule_name, kind, param = item
+    if kind == "metadata":
+        a_ = core.Acc()
+        metadata_work(a_)
+        return a_
     ctx = Ctx(rule_name)
     ra = ctx.ra
     acc = core.Acc()
@@ -378,12 +454,17 @@ def plan(tier):
         info[rn] = {"dfa_states": ra.strict.n, "dfa_transitions": ra.strict.n_transitions(),
                     "alphabet": sigma, "L": L, "sweep": total, "wmethod": ks,
                     "strict_equals_lenient": ra.same}
+    items.append(("metadataRule", "metadata", None))
     return items, info
 
 
 def replay(case):
     ctx = Ctx(case["rule"])
-    if "parent_content" in case or "rearranged_by" in case:
+    if case.get("metadata_children") is not None:
+        a = core.Acc()
+        metadata_work(a)
+        return [p_ for ps in a.problems.values() for p_ in ps if core.jsonable(p_["case"]) == core.jsonable(case)]
+    if "parent_content" in case or "rearranged_by" in case or "route" in case:
         acc = core.Acc()
         frame_work(ctx, acc)
         return [p for ps in acc.problems.values() for p in ps if core.jsonable(p["case"]) == core.jsonable(case)]
